@@ -199,10 +199,10 @@ def shrink(binp, prop, tier, plan_lines, target, engine, budget=400):
     """ddmin over steps, then per-step simplification; a candidate is accepted only if it
     reproduces the same signature class."""
     head, steps = plan_lines[0], list(plan_lines[1:])
-    runs = [0]
+    runs = [0]; t_start = time.time()
 
     def fails(st):
-        if runs[0] >= budget:
+        if runs[0] >= budget or time.time() - t_start > 240:      # minimisation is time-boxed (a hanging call costs its full limit per replay)
             return False
         runs[0] += 1
         r = exec_plan(binp, prop, tier, [head] + st)
